@@ -17,8 +17,8 @@ import (
 	"crypto/sha256"
 	"encoding/binary"
 	"encoding/hex"
-	"hash/maphash"
 	"fmt"
+	"hash/maphash"
 	"io/fs"
 	"os"
 	"path"
@@ -208,7 +208,7 @@ func snapshotDir(root string) (string, map[string]int64) {
 				head = head[:24]
 			}
 			// the content hash only has to be comparable within this process
-			fmt.Fprintf(&sb, " size=%d read=%d hash=%016x head=%q err=%v\n", st.Size, len(b), maphash.Bytes(hashSeed, b), head, err)
+			fmt.Fprintf(&sb, " size=%d read=%d hash=%016x head=%q err=%v\n", st.Size, len(b), maphash.Bytes(hashSeed, b), strings.ReplaceAll(string(head), " ", "_"), err)
 		default:
 			sb.WriteString(" other\n")
 		}
